@@ -145,6 +145,9 @@ func runNonceInner(c *NonceCase) (string, string) { //nolint:cyclop
 			f[i] = next()
 		}
 		copy(f[:tsLen], raw[:tsLen]) // current timestamp, random MAC
+		if string(f) == string(raw) {
+			continue // the random MAC is the genuine one (a 2^-16 event at the shortest length): not a forgery
+		}
 		if err := mgr.Validate(encodeNonce(c, f)); err == nil {
 			return "forged-nonce-accepted", what + ": a nonce with the current timestamp and a random MAC is accepted"
 		}
